@@ -176,6 +176,20 @@ def form_qubits(f):
     return form_qubits(f[-1] if t == "sm" else f[1])
 
 
+def mono_count(f):
+    """number of monomials of the fully distributed form (before collecting)."""
+    t = f[0]
+    if t in "cs":
+        return 1
+    if t in "+-":
+        return mono_count(f[1]) + mono_count(f[2])
+    if t == "*":
+        return mono_count(f[1]) * mono_count(f[2])
+    if t == "^":
+        return mono_count(f[1]) ** f[2]
+    return mono_count(f[2])
+
+
 def form_stats(f, acc=None):
     """(max factors on one qubit in a product chain — rough —, has pow, has custom)."""
     acc = acc if acc is not None else Counter()
@@ -1237,6 +1251,9 @@ def corr_forms(ctx):
         f = g.form(depth=rng.choice([1, 2, 2, 3]) if n < 4 else rng.choice([1, 2]))
         if rng.random() < 0.3:
             f = ("+", f, dagger_form(f))
+        if mono_count(f) > 250:
+            ctx.stat("corr_skipped_many_monomials")
+            continue
         style = rng.choice(["py", "sym", "int"])
         M = spec_matrix(f, n, g.custom)
         if np.abs(M).max(initial=0) > 2**30:
